@@ -607,17 +607,7 @@ func c13Unmarshal(c *Ctx) {
 	}
 	// ext = uint16(data[0])<<8 | uint16(data[1]) of the loop's current data
 	s := Render(ext)
-	okDec := false
-	if or, ok := ext.(*ssa.BinOp); ok && or.Op == token.OR {
-		hi, lo := or.X, or.Y
-		if sh, ok := hi.(*ssa.BinOp); ok && sh.Op == token.SHL {
-			if n, _ := ConstInt(sh.Y); n == 8 {
-				d0, i0, ok0 := convIndexed(sh.X)
-				d1, i1, ok1 := convIndexed(lo)
-				okDec = ok0 && ok1 && d0 == d1 && i0 == 0 && i1 == 1
-			}
-		}
-	}
+	_, okDec := be16AtStart(ext)
 	c.Check(okDec, "ja3-wire-order", "extension type decoding", p.InstrPos(ap), "type = big-endian 16 bits at the cursor", "the appended extension type is not the big-endian 16-bit value at the parse cursor: "+s)
 	// unconditional w.r.t. the type: no dominating condition mentions ext; and in the loop
 	dep := false
@@ -978,4 +968,60 @@ func c13JoinedSections(fn *ssa.Function, recv ssa.Value) []string {
 	}
 	_ = recv
 	return out
+}
+
+// be16AtStart: v is the big-endian 16-bit value of the first two bytes of a byte slice – written inline
+// (uint16(d[0])<<8 | uint16(d[1])), through a helper of the package that returns exactly that of its parameter, or
+// binary.BigEndian.Uint16(d). Returns the slice.
+func be16AtStart(v ssa.Value) (ssa.Value, bool) {
+	for i := 0; i < 3; i++ {
+		if cv, ok := v.(*ssa.Convert); ok {
+			v = cv.X
+			continue
+		}
+		break
+	}
+	if or, ok := v.(*ssa.BinOp); ok && or.Op == token.OR {
+		hi, lo := or.X, or.Y
+		if sh, ok := hi.(*ssa.BinOp); ok && sh.Op == token.SHL {
+			if n, _ := ConstInt(sh.Y); n == 8 {
+				d0, i0, ok0 := convIndexed(sh.X)
+				d1, i1, ok1 := convIndexed(lo)
+				if ok0 && ok1 && d0 == d1 && i0 == 0 && i1 == 1 {
+					return d0, true
+				}
+			}
+		}
+		return nil, false
+	}
+	call, ok := v.(*ssa.Call)
+	if !ok {
+		return nil, false
+	}
+	args := call.Call.Args
+	if call.Call.IsInvoke() || len(args) == 0 {
+		return nil, false
+	}
+	f := call.Call.StaticCallee()
+	if f == nil {
+		return nil, false
+	}
+	arg := args[len(args)-1]
+	if f.Name() == "Uint16" && PkgOf(f) == "encoding/binary" && strings.Contains(f.String(), "bigEndian") {
+		return arg, true
+	}
+	if !InRepo(f) || f.Blocks == nil || len(f.Params) != 1 || len(args) != 1 {
+		return nil, false
+	}
+	for _, r := range Returns(f) {
+		vals := RetVals(r)
+		if len(vals) != 1 {
+			return nil, false
+		}
+		d, ok := be16AtStart(vals[0])
+		if !ok || d != ssa.Value(f.Params[0]) {
+			return nil, false
+		}
+	}
+	return arg, true
 }
